@@ -317,8 +317,10 @@ def mid_history(st, rng, res, info, maxn, judge):
         if rng.random() < 0.3:
             n = rng.randrange(0, min(maxn, 9000))
         kind = rng.choice(gens.KINDS)
+        if maxn >= 20000 and n > 65536 and rng.random() < 0.6:
+            kind = rng.choice(gens.FAR_KINDS)          # window-edge generators: distances 65533..65540, far runs
         src = gens.data(rng, kind, n)
-        if calls and rng.random() < 0.5:
+        if calls and rng.random() < 0.5 and kind not in gens.FAR_KINDS:
             prev = calls[-1][1]
             src = (prev[:len(src) // 2] + src)[:n]
         b = bound(n)
@@ -346,3 +348,272 @@ def run_mid_case(st, case, judge):
     for j in range(case["count"]):
         mid_history(st, rng, res, {"bseed": case["bseed"], "j": j, "mid": 1}, case["maxn"], judge)
     return finish(res, "hcmid")
+
+
+# ------------------------------------------------------------------ hash-chain parser (HC levels 3-9) model vs code
+CHAIN_LEVELS = [3, 4, 5, 6, 7, 8, 9, 9, 9, 0, -3]     # 0 / negative = LZ4HC_CLEVEL_DEFAULT (9: pattern analysis on)
+CHAIN_CORR = ("Model.HcChainApi (LZ4HC_compress_hashChain + LZ4HC_InsertAndGetWiderMatch + one-shot HC entry points at levels 3-9, "
+              "LZ4_compress_HC_destSize) == the real functions over call histories on one LZ4_streamHC_t (return value, consumed, bytes, "
+              "hashTable, chainTable, nextToUpdate, end index, dirty flag, favorDecSpeed after every call)")
+CHAIN_SEARCH_CORR = ("Model.HcChain.insertAndGetWiderMatch == LZ4HC_InsertAndGetWiderMatch called directly on a context with an external "
+                     "dictionary segment, chainSwap / patternAnalysis / favorDecSpeed on and off (match offset, length, back, "
+                     "hashTable, chainTable, nextToUpdate after every call)")
+
+def chainstate_lib():
+    """shared object with harness/c/hcchain.c (#includes lz4hc.c: field access + the static search function)"""
+    from vlib import build_lib
+    return build_lib("chainstate", wrappers=["hcchain.c"])
+
+def parse_chain(a):
+    t = a.split()
+    if len(t) < 9 or not t[0].lstrip("-").isdigit():
+        raise RuntimeError("chain oracle: " + a[:300])
+    d = {"ret": int(t[0]), "consumed": int(t[1]), "len": int(t[2]), "md5": t[3]}
+    for kv in t[4:]:
+        if "=" in kv:
+            k, v = kv.split("=", 1); d[k] = v
+    return d
+
+def _chain_sigs(raw):
+    import ctypes
+    from ctypes import c_int, c_void_p, c_uint, c_ulonglong
+    if getattr(raw, "_chain_sigs_done", False):
+        return
+    raw.v_hcc_tables.restype = None; raw.v_hcc_tables.argtypes = [c_void_p, c_void_p, c_void_p]
+    raw.v_hcc_end_index.restype = c_ulonglong; raw.v_hcc_end_index.argtypes = [c_void_p]
+    raw.v_hcc_next_to_update.restype = c_uint; raw.v_hcc_next_to_update.argtypes = [c_void_p]
+    raw.v_hcc_dirty.restype = c_int; raw.v_hcc_dirty.argtypes = [c_void_p]
+    raw.v_hcc_fav.restype = c_int; raw.v_hcc_fav.argtypes = [c_void_p]
+    raw.v_hcc_set_end_index.restype = None; raw.v_hcc_set_end_index.argtypes = [c_void_p, c_uint]
+    raw.v_hcc_search_init.restype = None; raw.v_hcc_search_init.argtypes = [c_void_p, c_void_p, c_int, c_void_p, c_int]
+    raw.v_hcc_search.restype = None
+    raw.v_hcc_search.argtypes = [c_void_p, c_void_p] + [c_int] * 8 + [c_void_p]
+    raw._chain_sigs_done = True
+
+def _chain_state(raw, stbuf, hb, cb):
+    import hashlib
+    raw.v_hcc_tables(stbuf.p, hb.p, cb.p)
+    return {"ht": hashlib.md5(hb.bytes()).hexdigest(), "ct": hashlib.md5(cb.bytes()).hexdigest(),
+            "end": str(raw.v_hcc_end_index(stbuf.p)), "ntu": str(raw.v_hcc_next_to_update(stbuf.p)),
+            "dirty": str(1 if raw.v_hcc_dirty(stbuf.p) else 0), "fav": str(1 if raw.v_hcc_fav(stbuf.p) else 0)}
+
+def run_chain_session(st, calls, res, info):
+    """calls: list of ("fr", src, cap, level) = LZ4_compress_HC_extStateHC_fastReset, ("ds", src, target, level) =
+    LZ4_compress_HC_destSize, ("fav", f) = LZ4_favorDecompressionSpeed, ("setend", idx) = pretend idx bytes of history
+    (field poke on both sides), executed on ONE LZ4_streamHC_t and on the extracted Model.HcChainApi (oracle `chain`,
+    session context).  After every call: return value, consumed, output bytes, hashTable, chainTable, nextToUpdate,
+    end index, dirty flag and favorDecSpeed must agree.  returns the list of (kind, src, cap, level, ret, consumed, out)."""
+    from ctypes import c_int, byref
+    lib = st["chainlib"]; raw = st["chainraw"]; orc = st["chain"]
+    _chain_sigs(raw)
+    stbuf = Buf(lib.sizeofStateHC(), data=bytes(lib.sizeofStateHC()))
+    lib.initStreamHC(stbuf.p, stbuf.n)
+    orc.ask("chaininit")
+    hb = Buf(4 * 32768); cb = Buf(2 * 65536)
+    outs = []
+    for ci, call in enumerate(calls):
+        kind = call[0]
+        if kind == "fav":
+            lib.favorDecompressionSpeed(stbuf.p, call[1]); orc.ask("chainfav", str(call[1])); continue
+        if kind == "setend":
+            raw.v_hcc_set_end_index(stbuf.p, call[1]); orc.ask("chainsetend", str(call[1])); continue
+        _, src, cap, level = call
+        n = len(src)
+        srcb = Buf(n, data=src)
+        dstb = Buf(max(cap, 0), fill=0xC3)
+        sz = c_int(n)
+        if kind == "fr":
+            r = lib.compress_HC_extStateHC_fastReset(stbuf.p, srcb.p, dstb.p, n, cap, level)
+            m = parse_chain(orc.ask("chainfr", hx(src), str(cap), str(level)))
+            consumed = n
+        else:
+            r = lib.compress_HC_destSize(stbuf.p, srcb.p, dstb.p, byref(sz), cap, level)
+            m = parse_chain(orc.ask("chainds", hx(src), str(cap), str(level)))
+            consumed = sz.value
+        out = dstb.bytes(r) if 0 < r <= cap else b""
+        res["evals"] += 1
+        res["stats"]["chain_" + kind] += 1
+        cs = _chain_state(raw, stbuf, hb, cb)
+        bad = None
+        if m["ret"] != r:
+            bad = "return value: model %d, code %d" % (m["ret"], r)
+        elif r > 0 and (m["md5"] != md5(out) or (kind == "ds" and m["consumed"] != consumed)):
+            bad = "output or consumed differ (code consumed=%d model=%d, code len %d model len %d)" % (consumed, m["consumed"], len(out), m["len"])
+        else:
+            diff = [k for k in ("ht", "ct", "ntu", "end", "dirty", "fav") if m[k] != cs[k]]
+            if diff:
+                bad = "context differs after the call in %s (model %s, code %s)" % (
+                    ",".join(diff), " ".join("%s=%s" % (k, m[k]) for k in diff if k not in ("ht", "ct")),
+                    " ".join("%s=%s" % (k, cs[k]) for k in diff if k not in ("ht", "ct")))
+        if bad is None and r > 0 and int(m["hw"]) > cap and (kind == "ds" or cap < bound(n)):
+            res["fails"].append({"status": "prop_fail", "what": "hash-chain model writes up to %s > capacity %d" % (m["hw"], cap),
+                                 "detail": dict(info, call=ci, kind=kind, n=n, cap=cap, level=level)})
+        if bad:
+            res["fails"].append({"status": "corr_fail", "what": "hash-chain parser model/code disagree (call %d, %s, level %d): %s" % (ci, kind, level, bad),
+                                 "detail": dict(info, call=ci, kind=kind, n=n, cap=cap, level=level,
+                                                calls=[(c[0], c[1].hex() if len(c[1]) <= 300 else "len=%d md5=%s" % (len(c[1]), md5(c[1])), c[2], c[3]) if len(c) == 4 else c
+                                                       for c in calls[:ci + 1]])})
+            # the real code's result is still judged by the caller (the property does not depend on the model)
+            outs.append((kind, src, cap, level, r, consumed, out))
+            srcb.free(); dstb.free()
+            break
+        outs.append((kind, src, cap, level, r, consumed, out))
+        srcb.free(); dstb.free()
+    stbuf.free(); hb.free(); cb.free()
+    return outs
+
+def run_chain_search_session(st, rng, res, info):
+    """direct calls of LZ4HC_InsertAndGetWiderMatch on a context with an external dictionary segment (possibly empty) and a
+    prefix, at increasing positions, with look-back, chainSwap, patternAnalysis and favorDecSpeed drawn at random"""
+    import ctypes
+    lib = st["chainlib"]; raw = st["chainraw"]; orc = st["chain"]
+    _chain_sigs(raw)
+    kind = rng.choice(["runs", "period", "text", "twosym", "selfdict", "mixed", "runs", "zerorich"])
+    dn = rng.choice([0, 0, 3, 4, 5, 40, 300, 2000])
+    pn = rng.choice([40, 200, 1500, 4000])
+    whole = gens.data(rng, kind, dn + pn)
+    if rng.random() < 0.4 and dn >= 4:      # a run crossing the dictionary / prefix boundary
+        b = bytes([rng.randrange(256)]); k1 = rng.randrange(1, min(dn, 40) + 1); k2 = rng.randrange(0, 40)
+        whole = whole[:dn - k1] + b * (k1 + k2) + whole[dn + k2:]
+        if rng.random() < 0.5 and pn > 200:
+            q = rng.randrange(60, pn - 100); whole = whole[:dn + q] + b * 70 + whole[dn + q + 70:]
+    whole = whole[:dn + pn]
+    d, p = whole[:dn], whole[dn:]
+    pn = len(p)
+    if pn < 20:
+        return
+    stbuf = Buf(lib.sizeofStateHC(), data=bytes(lib.sizeofStateHC()))
+    db = Buf(dn, data=d); pb = Buf(pn, data=p)
+    level = rng.choice([3, 9, 12])
+    raw.v_hcc_search_init(stbuf.p, db.p, dn, pb.p, level)
+    orc.ask("ssinit", hx(d), hx(p))
+    hb = Buf(4 * 32768); cb = Buf(2 * 65536)
+    resb = (ctypes.c_int * 3)()
+    high = pn - 5
+    pos = 0
+    k = 0
+    while pos <= pn - 12 and k < 60:
+        k += 1
+        low = pos - rng.choice([0, 0, 0, 1, 2, 5, 17]) if rng.random() < 0.5 else pos
+        low = max(0, low)
+        swap = 1 if (low == pos and rng.random() < 0.5) else 0        # chainSwap asserts lookBackLength == 0
+        pa = rng.choice([0, 1, 1]); fav = rng.choice([0, 0, 1])
+        nb = rng.choice([1, 2, 4, 16, 64, 256])
+        longest = rng.choice([3, 3, 4, 5, 8, 18])
+        if pos - low + 0 > longest - 1 + 0 and low < pos:
+            longest = max(longest, pos - low + 1)          # as the parser: the 2-byte pre-test reads at iLowLimit + longest - 1 >= ip - ... inside the source
+        longest = min(longest, high - low) if high - low >= 3 else 3
+        if longest < 1:
+            break
+        raw.v_hcc_search(stbuf.p, pb.p, pos, low, high, longest, nb, pa, swap, fav, resb)
+        a = orc.ask("sssearch", str(pos), str(low), str(high), str(longest), str(nb), str(pa), str(swap), str(fav))
+        res["evals"] += 1
+        res["stats"]["chain_search"] += 1
+        cs = _chain_state(raw, stbuf, hb, cb)
+        t = a.split()
+        bad = None
+        if t[0] == "undef":
+            bad = "model ran out of fuel"
+        else:
+            mm = dict(kv.split("=", 1) for kv in t[3:])
+            if [int(t[0]), int(t[1]), int(t[2])] != [resb[0], resb[1], resb[2]]:
+                bad = "match differs: model (off,len,back)=(%s,%s,%s), code (%d,%d,%d)" % (t[0], t[1], t[2], resb[0], resb[1], resb[2])
+            elif (mm["ntu"], mm["ht"], mm["ct"]) != (cs["ntu"], cs["ht"], cs["ct"]):
+                bad = "tables differ after the search (ntu model %s code %s)" % (mm["ntu"], cs["ntu"])
+        if bad:
+            res["fails"].append({"status": "corr_fail", "what": "LZ4HC_InsertAndGetWiderMatch model/code disagree: " + bad,
+                                 "detail": dict(info, dict=d.hex() if dn <= 300 else "len=%d" % dn, prefix=p.hex() if pn <= 300 else "len=%d" % pn,
+                                                pos=pos, low=low, high=high, longest=longest, nb=nb, pa=pa, swap=swap, fav=fav, level=level)})
+            break
+        if resb[1] > longest and swap == 0 and resb[0] > 0:
+            res["keys"].add(key_of(whole, "search", pos, low, nb, pa, fav))
+        pos += rng.choice([0, 1, 1, 2, 3, 7, max(1, resb[1] - 2)])
+    stbuf.free(); db.free(); pb.free(); hb.free(); cb.free()
+
+def chain_gen_cases(rng, tier, scale=1.0):
+    nm = int({"quick": 18, "search": 40, "thorough": 120}[tier] * scale)
+    return [{"bseed": rng.randrange(1 << 48), "count": 8 if i % 9 else 1, "mode": "hcchain", "maxn": 8000 if i % 9 else 70000} for i in range(max(nm, 3))]
+
+def chain_worker(st, ctx):
+    import ctypes
+    from capi import Lib
+    from vlib import Oracle
+    st["chainlib"] = Lib(ctx["chainstate"]); st["chainraw"] = ctypes.CDLL(ctx["chainstate"]); st["chain"] = Oracle(name="chain")
+    return st
+
+def chain_history(st, rng, res, info, maxn, judge):
+    """HC levels 3-9 (hash chain): fast-reset one-shot calls and destSize calls on one LZ4_streamHC_t (levels mixed, favorDecSpeed
+    toggled, occasionally a context that has already indexed ~1 GB), model == code after every call;
+    judge(kind, src, cap, level, r, consumed, out) -> error string or None decides the property on every result"""
+    calls = []
+    big = maxn >= 20000
+    if rng.random() < 0.15:
+        calls.append(("setend", rng.choice([1073741824 - 70000, 1073741824 - 2000, 1073741824, 1073741825, 1073741824 + 5000, 0x3FFF0000])))
+    for _ in range(rng.choice([1, 2, 3]) if big else rng.choice([1, 2, 3, 5])):
+        if rng.random() < 0.25:
+            calls.append(("fav", rng.choice([0, 1])))
+        if big:
+            kind = rng.choice(gens.FAR_KINDS + ["period", "runs", "mixed"])
+            n = rng.choice([65536 + 40, 70000, 66000])
+        else:
+            kind = rng.choice(gens.KINDS + ["runs", "period", "twosym"])
+            n = rng.choice([0, 1, 5, 12, 13, 14, 20, 100, 1000, 3000, 4096, 8000])
+            if rng.random() < 0.3:
+                n = rng.randrange(0, min(maxn, 8000))
+        src = gens.data(rng, kind, n)
+        if big and kind in gens.FAR_KINDS:
+            src = src[:72000]
+        n = len(src)
+        prev = [c for c in calls if c[0] in ("fr", "ds")]
+        if prev and rng.random() < 0.5:
+            src = (prev[-1][1][:len(src) // 2] + src)[:n]
+        b = bound(n)
+        level = rng.choice(CHAIN_LEVELS)
+        if rng.random() < 0.3:
+            calls.append(("ds", src, rng.choice([1, 2, 5, 12, 13, 20, n // 3 + 1, n // 2 + 7, b, rng.randrange(1, b + 2)]), level))
+        else:
+            calls.append(("fr", src, rng.choice([b, b, b + 5, max(0, b - 1), n // 2 + 4, rng.randrange(0, b + 2)]), level))
+    outs = run_chain_session(st, calls, res, info)
+    for (kind, src, cap, level, r, consumed, out) in outs:
+        res["stats"]["variant_chain_" + kind] += 1
+        err = judge(kind, src, cap, level, r, consumed, out)
+        if err:
+            res["fails"].append({"status": "prop_fail", "what": "HC hash chain (level %d, %s): %s" % (level, kind, err),
+                                 "detail": dict(info, sizes=[len(c[1]) for c in calls if len(c) == 4], caps=[c[2] for c in calls if len(c) == 4])})
+        if r > 0 and len(out) < consumed:
+            res["keys"].add(key_of(src, "chain" + kind, level, len(out)))
+
+def chain_dest_sweep(st, rng, res, info, judge):
+    """LZ4_compress_HC_destSize with EVERY target size in a window (the overflow epilogue `_dest_overflow` and the last-literals
+    adjustment depend on exact byte counts), one small compressible input, one level; and the limitedOutput capacities around
+    the full size"""
+    kind = rng.choice(["runs", "period", "text", "twosym", "longmatch", "selfdict", "lit255", "mixed"])
+    n = rng.choice([30, 60, 100, 200, 400, 700])
+    src = gens.data(rng, kind, n)[:900]
+    n = len(src); b = bound(n)
+    level = rng.choice(CHAIN_LEVELS)
+    lo = rng.randrange(1, max(2, b - 40)) if b > 90 else 1
+    calls = [("ds", src, t, level) for t in range(lo, min(b + 2, lo + 90))]
+    calls += [("fr", src, c, level) for c in sorted(set(rng.randrange(0, b + 1) for _ in range(12)))]
+    outs = run_chain_session(st, calls, res, info)
+    for (k, s_, cap, lvl, r, consumed, out) in outs:
+        res["stats"]["variant_chain_sweep_" + k] += 1
+        err = judge(k, s_, cap, lvl, r, consumed, out)
+        if err:
+            res["fails"].append({"status": "prop_fail", "what": "HC hash chain (level %d, %s, capacity/target %d of a sweep): %s" % (lvl, k, cap, err),
+                                 "detail": dict(info, n=n, dkind=kind, level=lvl, cap=cap, src=src.hex() if n <= 400 else "len=%d" % n)})
+            break
+        if r > 0 and 0 < consumed < n:
+            res["keys"].add(key_of(src, "chainsweep", lvl, cap))
+
+def run_chain_case(st, case, judge):
+    import random
+    rng = random.Random(case["bseed"])
+    res = new_res()
+    for j in range(case["count"]):
+        chain_history(st, rng, res, {"bseed": case["bseed"], "j": j, "chain": 1}, case["maxn"], judge)
+        if case["maxn"] < 20000:
+            run_chain_search_session(st, rng, res, {"bseed": case["bseed"], "j": j, "chainsearch": 1})
+            if j % 4 == 0:
+                chain_dest_sweep(st, rng, res, {"bseed": case["bseed"], "j": j, "chainsweep": 1}, judge)
+    return finish(res, "hcchain")
